@@ -423,6 +423,23 @@ func runC14(c C14Case) *Result {
 		} else {
 			res.class("map-missing:empty")
 		}
+		if len(supply) > 0 {
+			// a bad peer first: the right number of hashes, one of them wrong, with remember=true. It has to be
+			// refused and must leave nothing behind: the forest still misses exactly the same positions
+			bad := cloneHashes(supply)
+			bad[len(bad)/2] = model.FreshHash(31337)
+			if err := m.VerifyPartialProof(cloneU64(reqPos), cloneHashes(reqH), bad, true); err == nil {
+				res.count("wrong-partial-proof-accepted(C03)", 1)
+			} else {
+				if again := m.GetMissingPositions(cloneU64(reqPos)); !eqU64(again, got) {
+					return res.failf("%s: after a REFUSED VerifyPartialProof(remember=true) GetMissingPositions(%v) = %v, before it was %v: the rejected hashes were kept", w.insts[0].Cfg, reqPos, again, got)
+				}
+				if err := w.check(); err != nil {
+					return res.failf("after a REFUSED VerifyPartialProof(remember=true): %v", err)
+				}
+				res.count("refused-partial-proof", 1)
+			}
+		}
 		if err := m.VerifyPartialProof(cloneU64(reqPos), cloneHashes(reqH), cloneHashes(supply), false); err != nil {
 			return res.failf("%s.VerifyPartialProof(%v) (N=%d) with the true hashes at exactly the missing positions %v failed: %v", w.insts[0].Cfg, reqPos, v.N, got, err)
 		}
